@@ -30,6 +30,10 @@ pub enum StallPoint {
     BetweenChunks,
     InLengthBody,
     InCloseBody,
+    /// gzip-coded chunked body: the whole coded stream has arrived in one chunk, the last chunk has not
+    GzipFrameTail,
+    /// direct https: the peer accepts the TCP connection and never says anything (the TLS handshake stalls)
+    TlsHandshake,
 }
 
 #[derive(Debug, Clone, Serialize, Deserialize, PartialEq, Eq, Hash)]
@@ -99,9 +103,20 @@ fn split_response(point: StallPoint) -> (Vec<u8>, Vec<u8>) {
         w.extend_from_slice(&body);
         w
     };
+    let gz_chunked = {
+        let mut e = flate2::write::GzEncoder::new(Vec::new(), flate2::Compression::new(6));
+        std::io::Write::write_all(&mut e, &body).unwrap();
+        let gz = e.finish().unwrap();
+        let mut w = b"HTTP/1.1 200 OK\r\nContent-Encoding: gzip\r\nTransfer-Encoding: chunked\r\n\r\n".to_vec();
+        w.extend_from_slice(format!("{:x}\r\n", gz.len()).as_bytes());
+        w.extend_from_slice(&gz);
+        w.extend_from_slice(b"\r\n0\r\n\r\n");
+        w
+    };
     let find = |w: &[u8], pat: &[u8]| w.windows(pat.len()).position(|x| x == pat).unwrap();
     let (wire, k) = match point {
-        StallPoint::Connect | StallPoint::ConnectNamed | StallPoint::Upload | StallPoint::BeforeReply => (length.clone(), 0),
+        StallPoint::Connect | StallPoint::ConnectNamed | StallPoint::TlsHandshake | StallPoint::Upload | StallPoint::BeforeReply => (length.clone(), 0),
+        StallPoint::GzipFrameTail => (gz_chunked.clone(), gz_chunked.len() - 5),
         StallPoint::InStatusLine => (length.clone(), 10),
         StallPoint::InHeader => (length.clone(), find(&length, b"X-Pad") + 9),
         StallPoint::AfterHead => (length.clone(), find(&length, b"\r\n\r\n") + 4),
@@ -276,13 +291,15 @@ fn run_once(case: &Case) -> Result<Observed, String> {
         Scenario::Stall { point, drip_ms } => {
             let (prompt, rest) = split_response(*point);
             let mut s = vec![];
-            if *point != StallPoint::Upload {
+            if *point != StallPoint::Upload && *point != StallPoint::TlsHandshake {
                 s.push(Step::ReadRequest);
             }
-            if !prompt.is_empty() {
+            if !prompt.is_empty() && *point != StallPoint::TlsHandshake {
                 s.push(Step::Send(prompt));
             }
-            if *drip_ms > 0 && *point != StallPoint::Upload {
+            // (the five bytes that are missing behind the gzip stream would all have dripped in long before any deadline:
+            // that point is a silent stall only)
+            if *drip_ms > 0 && !matches!(*point, StallPoint::Upload | StallPoint::TlsHandshake | StallPoint::GzipFrameTail) {
                 s.push(Step::Drip { bytes: rest, every_ms: *drip_ms as u64 });
             }
             s.push(Step::Stall);
@@ -329,7 +346,8 @@ fn run_once(case: &Case) -> Result<Observed, String> {
     // a prepared request that is sent twice needs the same response twice
     let scripts = if case.prepared == 2 && matches!(case.scenario, Scenario::Complete { .. }) && scripts.len() == 1 { vec![scripts[0].clone(), scripts[0].clone()] } else { scripts };
     let mut hole = if connect_stall { Some(crate::peers::black_hole(false, 1).map_err(|e| format!("black hole: {e}"))?) } else { None };
-    let tunnel = case.tunnel && scripts.len() == 1 && !upload && !connect_stall && case.prepared != 2;
+    let tls_stall = matches!(case.scenario, Scenario::Stall { point: StallPoint::TlsHandshake, .. });
+    let tunnel = case.tunnel && scripts.len() == 1 && !upload && !connect_stall && !tls_stall && case.prepared != 2;
     let mut server = if tunnel { tunnel_script_server("good", scripts.into_iter().next().unwrap()) } else { script_server(scripts) }.map_err(|e| format!("server: {e}"))?;
     install_sched(&case.sched);
     let proxy_port = server.addr.port();
@@ -343,6 +361,8 @@ fn run_once(case: &Case) -> Result<Observed, String> {
         format!("http://{}/x", h.addr)
     } else if tunnel {
         "https://127.0.0.1:4443/x".to_string()
+    } else if tls_stall {
+        format!("https://127.0.0.1:{}/x", server.addr.port())
     } else {
         format!("http://127.0.0.1:{}/x", server.addr.port())
     };
@@ -467,6 +487,10 @@ labelled points of the watchdog / reader (verif-hooks H3). Oracle S1-S4. non-tri
                 v.push(Case { scenario: Scenario::Stall { point: p, drip_ms: 0 }, t_ms: 0, r_ms: 150, reads: vec![512], sched: vec![], tunnel: false, api: 0, prepared: 0 });
             }
         }
+        for p in [StallPoint::GzipFrameTail, StallPoint::TlsHandshake] {
+            v.push(Case { scenario: Scenario::Stall { point: p, drip_ms: 0 }, t_ms: 300, r_ms: 5000, reads: vec![4096], sched: vec![], tunnel: false, api: 0, prepared: 0 });
+            v.push(Case { scenario: Scenario::Stall { point: p, drip_ms: 0 }, t_ms: 0, r_ms: 150, reads: vec![4096], sched: vec![], tunnel: false, api: 0, prepared: 0 });
+        }
         // the budget belongs to the send, not to the prepared request
         for framing in 0..3u8 {
             v.push(Case { scenario: Scenario::Complete { framing, payload: 400, extra_reads: vec![(10, 0)] }, t_ms: 300, r_ms: 5000, reads: vec![4096], sched: vec![], tunnel: false, api: 0, prepared: 1 });
@@ -530,6 +554,8 @@ labelled points of the watchdog / reader (verif-hooks H3). Oracle S1-S4. non-tri
             2 => Just(StallPoint::BetweenChunks),
             2 => Just(StallPoint::InLengthBody),
             2 => Just(StallPoint::InCloseBody),
+            1 => Just(StallPoint::GzipFrameTail),
+            1 => Just(StallPoint::TlsHandshake),
         ];
         let scenario = prop_oneof![
             6 => (point, prop_oneof![2 => Just(0u8), 1 => 15u8..60]).prop_map(|(point, drip_ms)| Scenario::Stall { point, drip_ms }),
@@ -641,7 +667,7 @@ labelled points of the watchdog / reader (verif-hooks H3). Oracle S1-S4. non-tri
                             }
                         }
                     }
-                    ctx.nontrivial = !matches!(point, StallPoint::Connect | StallPoint::ConnectNamed | StallPoint::Upload | StallPoint::BeforeReply | StallPoint::InStatusLine | StallPoint::InHeader) || *drip_ms > 0;
+                    ctx.nontrivial = !matches!(point, StallPoint::Connect | StallPoint::ConnectNamed | StallPoint::TlsHandshake | StallPoint::Upload | StallPoint::BeforeReply | StallPoint::InStatusLine | StallPoint::InHeader) || *drip_ms > 0;
                     ctx.label(match point {
                         StallPoint::Connect => "stall:connect",
                         StallPoint::ConnectNamed => "stall:connect(two raced addresses)",
@@ -655,6 +681,8 @@ labelled points of the watchdog / reader (verif-hooks H3). Oracle S1-S4. non-tri
                         StallPoint::BetweenChunks => "stall:between-chunks",
                         StallPoint::InLengthBody => "stall:length-body",
                         StallPoint::InCloseBody => "stall:close-body",
+                        StallPoint::GzipFrameTail => "stall:after-the-gzip-stream-before-the-last-chunk",
+                        StallPoint::TlsHandshake => "stall:tls-handshake",
                     });
                     ctx.label_if(*drip_ms > 0, "drip");
                     ctx.label_if(t == 0, "read-timeout-only");
